@@ -27,7 +27,10 @@ func init() {
 }
 
 // mustHeld computes, for every block of g, whether the mutex at path mu is held at block entry on all paths.
-func mustHeld(g *FG, mu string) map[*cfg.Block]bool {
+func mustHeld(g *FG, mu string) map[*cfg.Block]bool { return mustHeldFrom(g, mu, false) }
+
+// mustHeldFrom: the same, with the mutex held (or not) when the function is entered.
+func mustHeldFrom(g *FG, mu string, entryHeld bool) map[*cfg.Block]bool {
 	info := g.Info
 	isCall := func(n ast.Node, name string) bool {
 		found := false
@@ -55,7 +58,7 @@ func mustHeld(g *FG, mu string) map[*cfg.Block]bool {
 		for i, b := range g.Blocks {
 			held := i != 0
 			if i == 0 {
-				held = false
+				held = entryHeld
 			} else {
 				any := false
 				for _, p := range g.preds[b] {
@@ -92,44 +95,134 @@ func mustHeld(g *FG, mu string) map[*cfg.Block]bool {
 	return in
 }
 
+// heldAtLoc: lock state at a node = entry state of its block plus the Lock/Unlock nodes before it in the block.
+func heldAtLoc(info *types.Info, in map[*cfg.Block]bool, loc Loc, mu string) bool {
+	held := in[loc.B]
+	for i := 0; i < loc.Idx; i++ {
+		n := loc.B.Nodes[i]
+		inspectNoLit(n, func(m ast.Node) bool {
+			if _, isDefer := m.(*ast.DeferStmt); isDefer {
+				return false
+			}
+			if call, ok := m.(*ast.CallExpr); ok {
+				if sel, ok := call.Fun.(*ast.SelectorExpr); ok && canonPath(info, sel.X) == mu {
+					if sel.Sel.Name == "Lock" {
+						held = true
+					}
+					if sel.Sel.Name == "Unlock" {
+						held = false
+					}
+				}
+			}
+			return true
+		})
+	}
+	return held
+}
+
+// c10EntryHeld decides whether mutex mu is held whenever fi is entered: fi is unexported, is never used as a
+// value (method value, go/defer target through a variable), has at least one static call site, and at every
+// call site the mutex is held (locally, or because that caller is itself always entered with it held). A call
+// from inside a function literal or a go statement does not count as held. This is the "the mutex must be
+// held" contract of a helper split out of a locked function, checked at its callers.
+func c10EntryHeld(c *Ctx, fi *FuncInfo, mu string, memo map[*FuncInfo]int, depth int) bool {
+	switch memo[fi] {
+	case 1:
+		return true
+	case 2, 3: // 3 = in progress (recursion): not proven
+		return false
+	}
+	memo[fi] = 3
+	res := func() bool {
+		if depth > 4 || fi.Obj == nil || fi.Obj.Exported() {
+			return false
+		}
+		callers, asValue := c.P.CallersOf(fi)
+		if asValue || len(callers) == 0 {
+			return false
+		}
+		for _, cf := range callers {
+			if cf.Decl.Body == nil {
+				return false
+			}
+			cinfo := cf.Pkg.TypesInfo
+			// every syntactic call of fi in the caller ...
+			total := 0
+			ast.Inspect(cf.Decl.Body, func(n ast.Node) bool {
+				if call, ok := n.(*ast.CallExpr); ok && calleeOf(cinfo, call) == fi.Obj {
+					total++
+				}
+				return true
+			})
+			// ... must be an ordinary call in the caller's own control flow (not in a literal, not go/defer)
+			g := c.P.Graph(cf)
+			hits := g.Calls(func(fn *types.Func, call *ast.CallExpr) bool { return fn == fi.Obj })
+			if len(hits) != total {
+				return false
+			}
+			var inLocal, inEntry map[*cfg.Block]bool
+			for _, h := range hits {
+				switch h.Top.(type) {
+				case *ast.GoStmt, *ast.DeferStmt:
+					return false
+				}
+				if inLocal == nil {
+					inLocal = mustHeldFrom(g, mu, false)
+				}
+				if heldAtLoc(cinfo, inLocal, h.Loc, mu) {
+					continue
+				}
+				if !c10EntryHeld(c, cf, mu, memo, depth+1) {
+					return false
+				}
+				if inEntry == nil {
+					inEntry = mustHeldFrom(g, mu, true)
+				}
+				if !heldAtLoc(cinfo, inEntry, h.Loc, mu) {
+					return false
+				}
+			}
+		}
+		return true
+	}()
+	if res {
+		memo[fi] = 1
+	} else {
+		memo[fi] = 2
+	}
+	return res
+}
+
 func c10WriterLock(c *Ctx) {
 	c.Clauses = append(c.Clauses, "C10.h every write to the terminal through writer.w happens with writer.mut held")
 	c.expect("C10.h", 3)
+	const mu = "writer.mut"
+	memo := map[*FuncInfo]int{}
 	for _, fi := range c.P.FuncsIn("vaxis") {
 		if fi.Decl.Body == nil || fi.Decl.Recv == nil || !strings.HasPrefix(fi.Name, "vaxis.(*writer).") {
 			continue
 		}
 		info := fi.Pkg.TypesInfo
 		g := c.P.Graph(fi)
-		in := mustHeld(g, "writer.mut")
+		in := mustHeldFrom(g, mu, false)
+		var inEntry map[*cfg.Block]bool
 		for _, h := range g.Calls(func(fn *types.Func, call *ast.CallExpr) bool {
 			sel, ok := call.Fun.(*ast.SelectorExpr)
 			return ok && sel.Sel.Name == "Write" && fieldOwner(info, sel.X) == "writer.w"
 		}) {
-			// lock state at the node: entry state of the block plus Lock/Unlock nodes before it
-			held := in[h.Loc.B]
-			for i := 0; i < h.Loc.Idx; i++ {
-				n := h.Loc.B.Nodes[i]
-				inspectNoLit(n, func(m ast.Node) bool {
-					if _, isDefer := m.(*ast.DeferStmt); isDefer {
-						return false
-					}
-					if call, ok := m.(*ast.CallExpr); ok {
-						if sel, ok := call.Fun.(*ast.SelectorExpr); ok && canonPath(info, sel.X) == "writer.mut" {
-							if sel.Sel.Name == "Lock" {
-								held = true
-							}
-							if sel.Sel.Name == "Unlock" {
-								held = false
-							}
-						}
-					}
-					return true
-				})
+			held := heldAtLoc(info, in, h.Loc, mu)
+			how := "mutex held on every path to the write"
+			if !held && c10EntryHeld(c, fi, mu, memo, 0) {
+				// not locked here: the function is a helper that is only ever entered with the mutex held
+				if inEntry == nil {
+					inEntry = mustHeldFrom(g, mu, true)
+				}
+				held = heldAtLoc(info, inEntry, h.Loc, mu)
+				how = "every caller of this unexported helper holds the mutex at the call, and it is not released before the write"
 			}
 			key := fi.Name + "/terminal write under writer.mut"
 			if held {
-				c.ok("C10.h", key, h.Node.Pos(), "mutex held on every path to the write")
+				c.ok("C10.h", key, h.Node.Pos(), "%s", how)
 			} else {
 				c.bad("C10.h", key, h.Node.Pos(), "w.w.Write is reachable without writer.mut: a frame flush on the main goroutine and a query written by WriteStringLocked from another goroutine can write to the terminal concurrently (interleaved bytes, data race on the console)")
 			}
@@ -172,44 +265,7 @@ func c15SortInPlace(c *Ctx) {
 	c.check(ok, "C15.h", fi.Name+"/children sorted in place by z-index", pos, "sort applied to s.Children", what+": the stored frame keeps insertion order, so for overlapping siblings the mouse target is the covered widget, not the top-most one")
 }
 
-func c16MeasureDrawAgree(c *Ctx) {
-	c.Clauses = append(c.Clauses, "C16.h the text widget measures and draws the same line text")
-	c.expect("C16.h", 4)
-	for _, name := range []string{"vxfw/text.(*Text).findContainerSize", "vxfw/text.(*Text).drawSoftwrap", "vxfw/text.(*Text).Draw"} {
-		fi := c.P.Func(name)
-		if fi == nil {
-			continue
-		}
-		info := fi.Pkg.TypesInfo
-		ast.Inspect(fi.Decl.Body, func(n ast.Node) bool {
-			call, ok := n.(*ast.CallExpr)
-			if !ok || len(call.Args) != 1 {
-				return true
-			}
-			sel, ok := call.Fun.(*ast.SelectorExpr)
-			if !ok || sel.Sel.Name != "Characters" {
-				return true
-			}
-			if typeName(info.TypeOf(sel.X)) != modPath+"/vxfw.DrawContext" {
-				return true
-			}
-			arg := unparen(call.Args[0])
-			good := false
-			if c2, ok := arg.(*ast.CallExpr); ok && len(c2.Args) == 0 {
-				if s2, ok := c2.Fun.(*ast.SelectorExpr); ok && s2.Sel.Name == "Text" {
-					good = true
-				}
-			}
-			key := name + "/line measured/drawn is the scanner's line"
-			if good {
-				c.ok("C16.h", key, call.Pos(), "ctx.Characters(scanner.Text())")
-			} else {
-				c.bad("C16.h", key, call.Pos(), "the line passed to ctx.Characters is %s, not the scanner's line: the measured surface and the drawn cells disagree, so cells beyond the measured width are dropped (or the surface is too wide)", types.ExprString(arg))
-			}
-			return true
-		})
-	}
-}
+// c16MeasureDrawAgree (C16.h) lives in c16h.go.
 
 func c01EmptyFrameCursorC12(c *Ctx) { c01EmptyFrameCursorRule(c, "C12.g") }
 func c01EmptyFrameCursor(c *Ctx)    { c01EmptyFrameCursorRule(c, "C01.j") }
